@@ -25,7 +25,12 @@ Record cenv := mkCEnv {
   ce_addr : N -> N;                            (* address id -> byte length of the address *)
   ce_extra : N -> OutputSize.datum * option OutputSize.sref;   (* datum / script-ref id -> their shapes *)
   ce_a : N; ce_b : N;                          (* LinearFee *)
-  ce_vkeys : N                                 (* mock vkey witnesses of fake_full_tx *)
+  ce_vkeys : N;                                (* mock vkey witnesses of fake_full_tx *)
+  (* what else the builder carries while the fee is estimated: collateral inputs / return / total, auxiliary data *)
+  ce_col_inputs : list N;
+  ce_col_return : option OutputSize.output;
+  ce_col_total : option N;
+  ce_aux : option N
 }.
 
 (* the size-only view of C05's values and outputs *)
@@ -44,7 +49,8 @@ Definition value_too_big_c (e : cenv) (v : value) : bool :=
 
 (* the transaction build() measures, for builder states that only carry inputs, outputs and a fee *)
 Definition tx_shape_of (e : cenv) (s : state) (fee : N) : TxSize.tx_shape :=
-  TxSize.mkTx (map fst (s_inputs s)) (map (shape_output e) (s_outputs s)) fee (ce_vkeys e) [].
+  TxSize.mkTx (map fst (s_inputs s)) (map (shape_output e) (s_outputs s)) fee (ce_vkeys e) []
+            (ce_col_inputs e) (ce_col_return e) (ce_col_total e) (ce_aux e).
 Definition tx_too_big_c (e : cenv) (s : state) : bool :=
   match get_fee_if_set s with
   | Some f => MinAda.c_max_tx_size (ce_cfg e) <? TxSize.full_tx_size (tx_shape_of e s f)
@@ -101,7 +107,6 @@ Section Instance.
   Hypothesis SE : sizes_exact e orc.
 
   Notation M := (@M O).
-  Definition J0 : state -> Prop := fun _ => True.
 
   (* computations that do not touch the builder state *)
   Definition pure_st {A} (m : M A) : Prop := forall s o, out_st (m s o) = s.
@@ -186,11 +191,19 @@ Section Instance.
   Lemma hoare_ret_keep {A} J (P : state -> Prop) (a : A) : hoare J P (ret a : M A) (fun _ s => P s).
   Proof. apply hoare_pure, pure_ret. Qed.
 
+  (* the invariant that survives FAILING runs (the Rust code mutates before it fails, and add_inputs_from_and_change retries
+     on the state a failed add_change left): either every output is within the limits, or the fee has been fixed already --
+     the only step that can put an inadmissible output into the builder is the top-up, which comes after set_final_fee, and a
+     builder whose fee is set refuses every further add_change *)
+  Definition J0 : state -> Prop := fun s => all_ok e s \/ s_fee s <> None.
+  Lemma set_final_fee_some v s : s_fee (set_final_fee v s) <> None.
+  Proof. unfold set_final_fee, set_s_fee. cbn [s_fee]. destruct (s_fee_request s) as [|nl|x]; try discriminate. destruct (nl <=? v); discriminate. Qed.
+
   (* the admission test with the concrete answers: success means the output is within the limits *)
   Lemma output_admissible_ok P x :
     hoare J0 P (output_admissible orc x) (fun _ s => P s /\ out_ok e x = true).
   Proof.
-    intros s o _ Ps. split; [exact I|].
+    intros s o Js Ps. split; [rewrite (pure_output_admissible x s o); exact Js|].
     unfold output_admissible, bindM, askS, askA, lift, ret. cbn [out_res out_st out_orc].
     destruct SE as [EA ES]. rewrite ES.
     destruct (value_too_big_c e (o_amount x)) eqn:Big; cbn [out_res out_st]; [exact I|].
@@ -216,7 +229,9 @@ Section Instance.
   Lemma add_output_ok x : hoare J0 (all_ok e) (add_output orc x) (fun _ s => all_ok e s).
   Proof.
     unfold add_output. eapply hoare_bind; [apply output_acceptable_ok|]. intros ?. cbn beta.
-    apply hoare_modify. intros s _ [A B]. split; [exact I|]. apply all_ok_app; [exact A|]. cbn [forallb]. rewrite B. reflexivity.
+    apply hoare_modify. intros s _ [A B].
+    assert (K : all_ok e (set_s_outputs (s_outputs s ++ [x]) s)) by (apply all_ok_app; [exact A|]; cbn [forallb]; rewrite B; reflexivity).
+    split; [left; exact K | exact K].
   Qed.
 
   Lemma change_outputs_loop_ok addr extra l : forall cl nf,
@@ -250,14 +265,14 @@ Section Instance.
   Qed.
 
   (* the top-up: the grown output is put back and then has to pass the admission test again *)
-  Lemma top_up_last_ok cl : hoare J0 (all_ok e) (top_up_last orc cl) (fun _ s => all_ok e s).
+  Lemma top_up_last_ok cl : hoare J0 (fun s => all_ok e s /\ s_fee s <> None) (top_up_last orc cl) (fun _ s => all_ok e s).
   Proof.
     unfold top_up_last. apply hoare_get_bind. intros s0.
     destruct (rev (s_outputs s0)) as [|last before] eqn:R; [apply hoare_fail; discriminate|].
     apply hoare_pure_bind; [apply pure_lift|]. intros amount.
     set (last' := mkOutput (o_addr last) amount (o_extra last)).
     eapply hoare_bind with (Q := fun _ s => forallb (out_ok e) (rev before) = true /\ s_outputs s = rev before ++ [last']).
-    - apply hoare_put. intros s _ [E A]. subst s. split; [exact I|]. split; [|reflexivity].
+    - apply hoare_put. intros s _ [E [A F]]. subst s. split; [right; exact F|]. split; [|reflexivity].
       unfold all_ok in A. rewrite <- (rev_involutive (s_outputs s0)), R in A. cbn [rev] in A.
       rewrite forallb_app in A. apply andb_prop in A. tauto.
     - intros ?. eapply hoare_conseq; [apply output_admissible_ok | intros s _ H; exact H |].
@@ -285,9 +300,10 @@ Section Instance.
       apply hoare_pure_bind; [apply pure_lift|]. intros nf'.
       eapply hoare_bind; [apply add_output_ok|]. intros ?. apply hoare_ret_keep.
     - intros r2. cbn beta.
-      eapply hoare_modify_bind with (P' := all_ok e); [intros s _ A; split; [exact I | apply all_ok_set_final_fee; exact A]|].
+      eapply hoare_modify_bind with (P' := fun s => all_ok e s /\ s_fee s <> None);
+        [intros s _ A; split; [right; apply set_final_fee_some | split; [apply all_ok_set_final_fee; exact A | apply set_final_fee_some]]|].
       eapply hoare_bind with (Q := fun _ s => all_ok e s).
-      + destruct (value_is_zero (fst r2)); [apply hoare_ret_keep | apply top_up_last_ok].
+      + destruct (value_is_zero (fst r2)); [apply hoare_ret'; intros s _ [A _]; exact A | apply top_up_last_ok].
       + intros ?. eapply hoare_bind; [apply (hoare_pure J0 (all_ok e)); apply pure_check_fee|].
         intros ?. cbn beta. apply hoare_ret_keep.
   Qed.
@@ -298,10 +314,10 @@ Section Instance.
     apply hoare_weaken with (P := all_ok e); [intros s _ [_ A]; exact A|].
     destruct (c_do_not_burn_extra_change (s_cfg s0)); [apply hoare_fail; discriminate|].
     destruct (s_fee_request s0) as [| |f].
-    - eapply hoare_modify_bind with (P' := all_ok e); [intros s _ A; split; [exact I | exact A]|]. apply hoare_ret_keep.
-    - eapply hoare_modify_bind with (P' := all_ok e); [intros s _ A; split; [exact I | exact A]|]. apply hoare_ret_keep.
+    - eapply hoare_modify_bind with (P' := all_ok e); [intros s _ A; split; [right; apply set_final_fee_some | exact A]|]. apply hoare_ret_keep.
+    - eapply hoare_modify_bind with (P' := all_ok e); [intros s _ A; split; [right; apply set_final_fee_some | exact A]|]. apply hoare_ret_keep.
     - destruct (f <? amount); [apply hoare_fail; discriminate|].
-      eapply hoare_modify_bind with (P' := all_ok e); [intros s _ A; split; [exact I | exact A]|]. apply hoare_ret_keep.
+      eapply hoare_modify_bind with (P' := all_ok e); [intros s _ A; split; [right; apply set_final_fee_some | exact A]|]. apply hoare_ret_keep.
   Qed.
 
   Lemma pure_branch_ok addr extra ce fee :
@@ -314,7 +330,7 @@ Section Instance.
     apply hoare_pure_bind; [apply pure_lift|]. intros nf.
     apply hoare_pure_bind; [apply pure_lift|]. intros need.
     destruct (coin ce <? need); [apply burn_extra_ok|].
-    eapply hoare_modify_bind with (P' := all_ok e); [intros s _ A; split; [exact I | exact A]|].
+    eapply hoare_modify_bind with (P' := all_ok e); [intros s _ A; split; [right; apply set_final_fee_some | exact A]|].
     apply hoare_pure_bind; [apply pure_lift|]. intros amount.
     eapply hoare_bind; [apply add_output_ok|]. intros ?.
     eapply hoare_bind; [apply (hoare_pure J0 (all_ok e)); apply pure_check_fee|]. intros ?. cbn beta. apply hoare_ret_keep.
@@ -335,7 +351,7 @@ Section Instance.
     apply hoare_pure_bind; [apply pure_lift|]. intros opf.
     destruct (value_partial_cmp ti opf) as [[| |]|]; try (apply hoare_fail; discriminate).
     - apply hoare_pure_bind; [apply pure_lift|]. intros d.
-      eapply hoare_modify_bind with (P' := all_ok e); [intros s _ A; split; [exact I | exact A]|]. apply hoare_ret_keep.
+      eapply hoare_modify_bind with (P' := all_ok e); [intros s _ A; split; [right; apply set_final_fee_some | exact A]|]. apply hoare_ret_keep.
     - apply hoare_pure_bind; [apply pure_lift|]. intros ce.
       destruct (has_assets (multiasset_of ce)); [apply asset_branch_ok | apply pure_branch_ok].
   Qed.
@@ -344,8 +360,58 @@ Section Instance.
     all_ok e s -> out_res (add_change orc fuel addr extra s o) = Ok b ->
     all_ok e (out_st (add_change orc fuel addr extra s o)).
   Proof.
-    intros A R. destruct (add_change_ok fuel addr extra s o I A) as [_ Q]. rewrite R in Q. exact Q.
+    intros A R. destruct (add_change_ok fuel addr extra s o (or_introl A) A) as [_ Q]. rewrite R in Q. exact Q.
   Qed.
+  (* from ANY state that satisfies the invariant (in particular the state a failed attempt left behind) *)
+  Lemma add_change_ok_any fuel addr extra :
+    hoare J0 (fun _ => True) (add_change orc fuel addr extra) (fun _ s => all_ok e s).
+  Proof.
+    intros s o Js _. destruct (s_fee s) eqn:F.
+    - unfold add_change, bindM, get, lift. cbn [out_res out_st out_orc]. rewrite F. cbn [out_res out_st]. split; [exact Js | exact I].
+    - destruct Js as [A | B]; [|congruence]. apply add_change_ok; [left; exact A | exact A].
+  Qed.
+
+  Lemma J0_set_inputs x s : J0 s -> J0 (set_s_inputs x s).
+  Proof. intros H. exact H. Qed.
+
+  Lemma pure_askSel st utxos : pure_st (askSel orc st utxos).
+  Proof. intros s o; reflexivity. Qed.
+
+  Lemma retry_loop_ok fuel addr extra l :
+    hoare J0 (fun _ => True) (retry_loop orc fuel addr extra l)
+      (fun r s => match r with Some _ => all_ok e s | None => True end).
+  Proof.
+    induction l as [|x r IH]; cbn [retry_loop]; [apply hoare_ret'; auto|].
+    unfold add_inputs at 1.
+    eapply hoare_modify_bind with (P' := fun _ => True); [intros s Js _; split; [apply J0_set_inputs; exact Js | exact I]|].
+    eapply hoare_bind; [apply hoare_catch, add_change_ok_any|]. intros [v|]; cbn beta.
+    - apply hoare_ret'. intros s _ A. exact A.
+    - eapply hoare_weaken; [|apply IH]. intros; exact I.
+  Qed.
+
+  (* add_inputs_from_and_change: the selection (an oracle answer), add_change, and the retries on further inputs *)
+  Theorem add_inputs_from_and_change_ok fuel utxos addr extra :
+    hoare J0 (fun _ => True) (add_inputs_from_and_change orc fuel utxos addr extra) (fun _ s => all_ok e s).
+  Proof.
+    unfold add_inputs_from_and_change. apply hoare_get_bind. intros s0.
+    apply hoare_pure_bind; [apply pure_askSel|]. intros sel.
+    unfold add_inputs at 1.
+    eapply hoare_modify_bind with (P' := fun _ => True); [intros s Js _; split; [apply J0_set_inputs; exact Js | exact I]|].
+    destruct (negb (snd sel)); [apply hoare_fail; discriminate|].
+    apply hoare_get_bind. intros s1.
+    destruct (s_fee s1); [apply hoare_fail; discriminate|].
+    eapply hoare_bind.
+    { apply hoare_catch. eapply hoare_weaken; [|apply add_change_ok_any]. intros; exact I. }
+    intros [v|]; cbn beta.
+    - apply hoare_ret'. intros s _ A. exact A.
+    - apply hoare_get_bind. intros s2.
+      eapply hoare_bind.
+      { eapply hoare_weaken; [|apply retry_loop_ok]. intros; exact I. }
+      intros [v|]; cbn beta.
+      + apply hoare_ret'. intros s _ A. exact A.
+      + apply hoare_fail; discriminate.
+  Qed.
+
   (* ----------------------------------------------------------------------------------------- *)
   (* pack_nfts_for_change: which bundles it returns.
      A value FITS when its serialised size is within max_value_size at some coin (the packer tests every candidate
@@ -378,8 +444,8 @@ Section Instance.
   Definition policy_value (policy : bytes) (a : assets) : value :=
     value_set_multiasset (ma_insert policy a ma_new) (value_new 0).
 
-  Lemma will_overflow_exact P out cur policy name q :
-    hoare J0 P (will_adding_asset_make_output_overflow orc out cur policy name q)
+  Lemma will_overflow_exact (J : state -> Prop) P out cur policy name q :
+    hoare J P (will_adding_asset_make_output_overflow orc out cur policy name q)
       (fun ov s => P s /\ exists ac m,
          value_checked_add out (policy_value policy (assets_insert name q cur)) = Ok ac /\
          ov = value_too_big_c e (value_set_coin m ac)).
@@ -410,9 +476,9 @@ Section Instance.
     exists 0. exact H.
   Qed.
 
-  Lemma pack_policy_assets_fits P policy l : forall a,
+  Lemma pack_policy_assets_fits (J : state -> Prop) P policy l : forall a,
     single_fits policy l -> acc_inv policy a ->
-    hoare J0 P (pack_policy_assets orc policy l a) (fun a' s => P s /\ acc_inv policy a').
+    hoare J P (pack_policy_assets orc policy l a) (fun a' s => P s /\ acc_inv policy a').
   Proof.
     induction l as [|[name q] r IH]; intros a SF AI; cbn [pack_policy_assets].
     - apply hoare_ret'. intros s _ Ps. split; [exact Ps | exact AI].
@@ -454,16 +520,16 @@ Section Instance.
 
   Definition all_single_fit (m : multiasset) : Prop := Forall (fun pa => single_fits (fst pa) (snd pa)) m.
 
-  Lemma pack_policies_fits P l : forall out changes,
+  Lemma pack_policies_fits (J : state -> Prop) P l : forall out changes,
     all_single_fit l -> out_inv out -> Forall bundle_ok changes ->
-    hoare J0 P (pack_policies orc l out changes)
+    hoare J P (pack_policies orc l out changes)
       (fun r s => P s /\ out_inv (fst r) /\ Forall bundle_ok (snd r)).
   Proof.
     induction l as [|[policy a] r IH]; intros out changes SF OI CH; cbn [pack_policies].
     - apply hoare_ret'. intros s _ Ps. cbn [fst snd]. auto.
     - inversion SF as [|x y SF1 SF2]; subst. cbn [fst snd] in SF1.
       eapply hoare_bind.
-      + apply (pack_policy_assets_fits P policy a (mkPack out out ma_new assets_new changes) SF1).
+      + apply (pack_policy_assets_fits J P policy a (mkPack out out ma_new assets_new changes) SF1).
         constructor; cbn [pa_output pa_old pa_next pa_rebuilt pa_changes]; auto.
       + intros acc. cbn beta.
         apply hoare_pre_pure with (phi := acc_inv policy acc); [intros s _ [_ H]; exact H|]. intros AI.
@@ -479,14 +545,14 @@ Section Instance.
         * apply IH; [exact SF2 | right; exists m; symmetry; exact Ebig | exact (ai_changes _ _ AI)].
   Qed.
 
-  Theorem pack_nfts_fits P ce ma :
+  Theorem pack_nfts_fits (J : state -> Prop) P ce ma :
     multiasset_of ce = Some ma -> all_single_fit ma ->
-    hoare J0 P (pack_nfts_for_change orc ce) (fun l s => P s /\ Forall bundle_ok l).
+    hoare J P (pack_nfts_for_change orc ce) (fun l s => P s /\ Forall bundle_ok l).
   Proof.
     intros Ema SF. unfold pack_nfts_for_change. rewrite Ema. unfold unwrap_ma at 1.
     match goal with |- hoare _ _ (bindM (ret ?x) ?g) _ => change (bindM (ret x) g) with (g x) end. cbn beta.
     eapply hoare_bind.
-    - apply (pack_policies_fits P ma); [exact SF | left; reflexivity | constructor].
+    - apply (pack_policies_fits J P ma); [exact SF | left; reflexivity | constructor].
     - intros r. cbn beta.
       apply hoare_pre_pure with (phi := out_inv (fst r) /\ Forall bundle_ok (snd r)); [intros s _ [_ H]; exact H|].
       intros [OI CH]. apply hoare_weaken with (P := P); [intros s _ [Ps _]; exact Ps|].
@@ -526,7 +592,7 @@ Qed.
    overflows at once (the output is closed empty), is put into the fresh output untested, and when the second one
    overflows too that output -- 69 bytes at any coin -- is returned *)
 Definition w_env : cenv :=
-  mkCEnv (MinAda.mkCfg 4310 40 16384) (fun _ => 57) (fun _ => (OutputSize.DNone, None)) 44 155381 1.
+  mkCEnv (MinAda.mkCfg 4310 40 16384) (fun _ => 57) (fun _ => (OutputSize.DNone, None)) 44 155381 1 [] None None None.
 Definition w_change : value :=
   mkValue 5000000 (Some [(repeat 7 28, [(repeat 1 32, 1); (repeat 2 32, 1)])]).
 Theorem pack_untested_witness :
